@@ -41,4 +41,15 @@ for m in repo.modules.values():
             (["*" + a.vararg.arg] if a.vararg else []) + (["**" + a.kwarg.arg] if a.kwarg else [])
     break
 json.dump(sigs, open(os.path.join(HERE, "signatures.json"), "w"), indent=0, sort_keys=True)
+# ... and how many `raise` statements each function has: an exception exit a later tree adds (a
+# clearer error for a malformed argument, an "unreachable" branch) is not an outcome the rules have
+# a model for - whether its condition can hold for valid input is not established (sa/interp.py)
+import ast as _ast
+raises = {fi.fq: sum(isinstance(n, (_ast.Raise, _ast.Assert)) for n in _ast.walk(fi.node))
+          for fi in repo.all_functions()}
+# (per module as well: an assert that merely moved into a new helper of the same module is not new)
+for m in repo.modules.values():
+    raises["module:" + m.path] = sum(isinstance(n, (_ast.Raise, _ast.Assert)) for n in _ast.walk(m.tree))
+json.dump({k: v for k, v in raises.items() if v}, open(os.path.join(HERE, "raise_sites.json"), "w"),
+          indent=0, sort_keys=True)
 print(len(out), "anchor fingerprints written;", len(sigs), "signatures")
